@@ -25,7 +25,7 @@ Qed.
 Lemma environ_extra r a e : environ r a = EnvOk e -> e_extra e = extras_of (q_headers a).
 Proof.
   unfold environ, extras_of, x2_of, x1_of, h2_of, K_CT, K_CL.
-  destruct (split_host (q_host a) (r_https r)) as [[h p]|]; [|discriminate].
+  destruct (split_host (q_host a) (q_https a)) as [[h p]|]; [|discriminate].
   destruct (path_info (q_path a)) as [pi|]; [|discriminate].
   unfold hm_get. destruct (hm_find k_ctype (q_headers a)) as [vs|] eqn:E1; cbn [option_map].
   - destruct (hm_find k_clen (hm_remove k_ctype (q_headers a))) as [ws|] eqn:E2; cbn [option_map];
@@ -169,7 +169,8 @@ End Extras.
 Lemma accept_inv r a : accept r = Some a ->
   hdr_add_all [] (map strip_value (r_headers r)) = Some (q_headers a) /\
   (exists f, partition1 63 (r_uri r) = (q_path a, f, q_query a)) /\
-  host_abnf (q_host a) = true.
+  host_abnf (q_host a) = true /\
+  q_https a = effective_https (r_xheaders r) (r_https r) (hm_get k_xscheme (q_headers a)) (hm_get k_xfproto (q_headers a)).
 Proof.
   unfold accept. intros H.
   destruct (negb (is_token (r_method r))); [discriminate|].
@@ -180,7 +181,20 @@ Proof.
   destruct (negb (host_abnf hv)) eqn:Eh; [discriminate|].
   destruct (existsb (N.eqb 44) hv); [discriminate|].
   destruct (partition1 63 (r_uri r)) as [[p f] q] eqn:P. inversion H; subst. cbn.
-  split; [reflexivity|]. split; [eauto|]. apply negb_false_iff. exact Eh.
+  split; [reflexivity|]. split; [eauto|]. split; [apply negb_false_iff; exact Eh|reflexivity].
+Qed.
+
+Lemma hm_get_joined hs h0 n : hdr_add_all [] hs = Some h0 -> hm_get (normalize n) h0 = joined n hs.
+Proof.
+  intros Hadd. unfold hm_get, joined. rewrite (h0_find hs h0 Hadd), values_of_vals.
+  destruct (vals (normalize n) hs); reflexivity.
+Qed.
+
+Lemma accept_https r a : accept r = Some a -> q_https a = https_spec r.
+Proof.
+  intros Ha. destruct (accept_inv r a Ha) as [Hadd [_ [_ E]]]. rewrite E. unfold https_spec.
+  change k_xscheme with (normalize (t "x-scheme")). change k_xfproto with (normalize (t "x-forwarded-proto")).
+  rewrite !(hm_get_joined _ _ _ Hadd). reflexivity.
 Qed.
 
 Lemma check_host_model https host name p :
@@ -199,7 +213,7 @@ Lemma check_env_model r a e :
 Proof.
   intros Ha He. destruct (accept_inv r a Ha) as [Hadd _].
   destruct (environ_fixed r a e He) as [E1 [E2 [E3 [E4 [E5 [E6 [E7 [p [E8 E9]]]]]]]]].
-  unfold check_env. rewrite E1, E2, E3, E4, E5, E6, E9, !text_eqb_refl.
+  unfold check_env. rewrite <- (accept_https r a Ha). rewrite E1, E2, E3, E4, E5, E6, E9, !text_eqb_refl.
   rewrite (path_info_bytes _ (accept_path_bytes r a Ha)) in E7. inversion E7 as [E7']. rewrite text_eqb_refl.
   rewrite (check_host_model _ _ _ _ E8). rewrite (environ_extra r a e He).
   rewrite (check_headers_extras _ _ Hadd). reflexivity.
